@@ -310,8 +310,19 @@ class Verifier:
 
     def prove(self, goal):
         I = self.I
+        from .ctx import has_quant
+        quant = I.nquant > 0 or has_quant(goal)
+        if quant:
+            s0 = z3.Solver()
+            s0.set('timeout', PROVE_TIMEOUT_MS)
+            s0.set('smt.mbqi', False)
+            for f in I.pc:
+                s0.add(f)
+            s0.add(z3.Not(zbool(goal)))
+            if STATS.timed(lambda: s0.check()) == z3.unsat:
+                return 'unsat', None
         s = z3.Solver()
-        s.set('timeout', PROVE_TIMEOUT_MS)
+        s.set('timeout', PROVE_TIMEOUT_MS if not quant else 20000)
         for f in I.pc:
             s.add(f)
         s.add(z3.Not(zbool(goal)))
